@@ -22,6 +22,7 @@ Proof. exact ts_nondecreasing. Qed.
 Print Assumptions C20_ts_nondecreasing.
 
 Theorem C20_ts_nondecreasing_refuted :
+  fix_C20_2 = false ->
   exists vs g ds n, ~ StronglySorted Z.le (map vts (fst (run_cfg vs g ds n))).
 Proof. exact ts_nondecreasing_refuted. Qed.
 Print Assumptions C20_ts_nondecreasing_refuted.
@@ -100,12 +101,14 @@ Print Assumptions C20_insert_is_sorted_insertion.
     leaves int64 (KF-C20-1), and some int64 configuration does panic *)
 Theorem C20_update_ts_panic_iff :
   forall ts dmin dmax t,
+    fix_C20_1 = false ->
     update_ts ts dmin dmax t = RPanic <->
     (0 <= ts /\ 0 <= dmin <= dmax /\ wrap64 (dmax - dmin + 1) <= 0).
 Proof. exact update_ts_panic_iff. Qed.
 Print Assumptions C20_update_ts_panic_iff.
 
-Theorem C20_no_panic_refuted : exists vs g ds n, snd (run_cfg vs g ds n) = EPanic.
+Theorem C20_no_panic_refuted :
+  fix_C20_1 = false -> exists vs g ds n, snd (run_cfg vs g ds n) = EPanic.
 Proof. exact no_panic_refuted. Qed.
 Print Assumptions C20_no_panic_refuted.
 
